@@ -70,7 +70,9 @@ def classify_elem(fn, n, S):
     if short == "open" and "this" in n and _refers(n["this"], S):
         return "open"
     if "this" in n and _refers(n["this"], S):
-        if short in ("close", "flush"):
+        if short == "close":
+            return "close"
+        if short == "flush":
             return "flush"
         if short in TEST_FAIL_TRUE or short in TEST_FAIL_FALSE or short in ("rdstate", "eof", "tellp", "clear"):
             return None
@@ -86,6 +88,14 @@ def classify_elem(fn, n, S):
         if _refers(a, S):
             return "write"
     return None
+
+
+def test_kind(fn, cond, S):
+    """'bad' if the test only looks at badbit (S.bad()), else 'fail' (fail(), !S, good(), …)."""
+    atom, pos = cond_atom(fn, cond)
+    if atom is not None and atom.get("k") == "call" and callee_short(atom) == "bad":
+        return "bad"
+    return "fail"
 
 
 def test_on(fn, cond, S):
@@ -309,24 +319,28 @@ def run(ctx):
                             if k == "open":
                                 new.add(("O", False))
                             elif k == "write":
-                                new.add((("D" if ph in ("O", "D", "F", "C") else ph), tested))
+                                new.add((("D" if ph in ("O", "D", "F", "K", "C") else ph), tested))
                             elif k == "flush":
                                 new.add((("F" if ph == "D" else ph), tested))
+                            elif k == "close":
+                                # a failing close() sets failbit only: bad() cannot see it
+                                new.add((("K" if ph in ("D", "F") else ph), tested))
                         states = new
                     if pos in exs:
                         kind, node = exs[pos]
                         status = exit_status(fn, kind, node, sv, False)
                         if status != "nonzero":
                             for ph, tested in states:
-                                if ph in ("D", "F"):
+                                if ph in ("D", "F", "K"):
                                     viol_o2.append((node, ph))
-                                if ph in ("O", "D", "F", "C") and not tested:
+                                if ph in ("O", "D", "F", "K", "C") and not tested:
                                     viol_o1.append(node)
                         ended = True
                         break
                 if ended or b.noret:
                     continue
                 fe = test_on(fn, fn.nodes[b.cond], S) if (b.cond is not None and len(b.succs) == 2 and b.cond in fn.nodes) else None
+                tk = test_kind(fn, fn.nodes[b.cond], S) if fe is not None else None
                 for idx, s in enumerate(b.succs):
                     if s is None:
                         continue
@@ -336,12 +350,14 @@ def run(ctx):
                             out = {("X", True)} if any(ph != "U" for ph, _ in states) else {(ph, True) for ph, _ in states}
                             fail_edges.append((bid, idx, s))
                         else:
-                            out = {(("C" if ph == "F" else ph), True) for ph, _ in states}
+                            # fail()/!S/good() observe failbit and badbit; bad() observes only badbit,
+                            # which is enough after flush() but not after close()
+                            out = {(("C" if (ph == "F" or (ph == "K" and tk == "fail")) else ph), True) for ph, _ in states}
                     if s == cfg.exit:
                         # implicit return 0 at the end of main
                         if not ex.get(bid):
                             for ph, tested in out:
-                                if ph in ("D", "F"):
+                                if ph in ("D", "F", "K"):
                                     viol_o2.append((None, ph))
                         continue
                     if s not in st_in or not out <= st_in[s]:
@@ -355,8 +371,8 @@ def run(ctx):
                 node, ph = viol_o2[0]
                 ctx.ob("R19.o2", inst + "|flush-then-test-after-last-write", False, fn.loc(node) if node else fn.loc(),
                        "exit reachable with %s %s (no %s after the last write)" % (
-                           S.name, "written but not flushed" if ph == "D" else "flushed but not tested",
-                           "close()/flush() + failure test" if ph == "D" else "failure test"))
+                           S.name, "written but not flushed" if ph == "D" else ("closed but only bad() was tested (a failed close() sets failbit, which bad() does not report)" if ph == "K" else "flushed but not tested"),
+                           "close()/flush() + failure test" if ph == "D" else "fail()/!stream test"))
             else:
                 ctx.ob("R19.o2", inst + "|flush-then-test-after-last-write", True, site,
                        "every write to %s is followed by close()/flush() and a failure test before any possibly-zero exit" % S.name)
